@@ -1,4 +1,6 @@
 (* C16 — flat-integer interface of the model for the correspondence check.
+   Two kinds of input, told apart by the first integer (0/1: direct, 2: through a reader).
+   DIRECT
    input : [fd; fm; nc; ns; k; fs_m; fs_e; vps_m; vps_e; p_m; p_e; M; s;
             w_0 .. w_{M-1};                 window taps * 2^s (integers)
             mv_0m; mv_0e; ...               k pairs      max_voltage entries as m*2^e
@@ -6,11 +8,19 @@
            fd / fm: dtype of data / of atleast_1d(max_voltage): 0 = float32, 1 = float64
            every float is passed exactly as m * 2^e (infinity: 1 * 2^100000)
    output: [0]                                      the source raises (broadcast error)
-           1 :: ns :: flags (0/1) ++ mute * 2^s     otherwise *)
+           1 :: ns :: flags (0/1) ++ mute * 2^s     otherwise
+   READER (max_voltage = Reader.range_volts[:nc - nsync] of a .meta file; C09's model parses it)
+   input : [2; fd; ns; fs_m; fs_e; vps_m; vps_e; p_m; p_e; M; s; w_0 .. w_{M-1};
+            L; c_0 .. c_{L-1};              the text of the .meta file (code points)
+            x_00m; x_00e; ...]              ncv*ns pairs, ncv = nc - nsync computed by the model
+   output: [0]                              metadata not usable / saturation raises
+           1 :: ncv :: fm :: range_volts[:ncv] as ncv pairs (mantissa, exponent) of the float32 (fm = 0) or
+                float64 (fm = 1) entries :: ns :: flags ++ mute * 2^s
+   In both kinds everything up to and including the flags is compared exactly, the mute within 2^(s-36). *)
 From Coq Require Import ZArith List Bool.
 From Flocq Require Import Core BinarySingleNaN.
 From IBL.lib Require Import PyInt RunLib.
-From IBL.C16 Require Import Model.
+From IBL.C16 Require Import Model Range.
 Import ListNotations.
 Open Scope Z_scope.
 
@@ -39,8 +49,66 @@ Definition flags_fmt (fd fm : Z) (fs_m fs_e vps_m vps_e p_m p_e : Z)
   | _, _ => go 53 1024 53 1024 Hp53 He53 Hp53 He53
   end.
 
-Definition run (inp : list Z) : list Z :=
+(* canonical (mantissa, exponent) of a float as Flocq stores it *)
+Definition enc_float {p e} (x : binary_float p e) : list Z :=
+  match x with
+  | B754_zero _ => [0; 0]
+  | B754_infinity sg => [if sg then -1 else 1; 100000]
+  | B754_nan => [0; 100001]
+  | B754_finite sg m ex _ => [cond_Zopp sg (Zpos m); ex]
+  end.
+
+Definition data_of pd ed Hpd Hed (data : list (list (Z * Z))) :=
+  map (map (fun x => of_me_d pd ed Hpd Hed (fst x) (snd x))) data.
+
+(* flags for data of dtype fd and a max_voltage vector already given as floats *)
+Definition flags_reader (fd : Z) (fs_m fs_e vps_m vps_e p_m p_e : Z) (rv : rv_float)
+           (data : list (list (Z * Z))) : option (list bool) :=
+  match fd, rv with
+  | 0, RV32 mv => ieee_flags 24 128 24 128 Hp24 He24 Hp24 He24 fs_m fs_e vps_m vps_e p_m p_e
+                    (data_of 24 128 Hp24 He24 data) mv
+  | 0, RV64 mv => ieee_flags 24 128 53 1024 Hp24 He24 Hp53 He53 fs_m fs_e vps_m vps_e p_m p_e
+                    (data_of 24 128 Hp24 He24 data) mv
+  | _, RV32 mv => ieee_flags 53 1024 24 128 Hp53 He53 Hp24 He24 fs_m fs_e vps_m vps_e p_m p_e
+                    (data_of 53 1024 Hp53 He53 data) mv
+  | _, RV64 mv => ieee_flags 53 1024 53 1024 Hp53 He53 Hp53 He53 fs_m fs_e vps_m vps_e p_m p_e
+                    (data_of 53 1024 Hp53 He53 data) mv
+  end.
+
+Definition rv_take (n : Z) (rv : rv_float) : rv_float :=
+  match rv with RV32 l => RV32 (C09.Model.py_take n l) | RV64 l => RV64 (C09.Model.py_take n l) end.
+Definition enc_rv (rv : rv_float) : list Z :=
+  match rv with
+  | RV32 l => Z.of_nat (length l) :: 0 :: flat_map enc_float l
+  | RV64 l => Z.of_nat (length l) :: 1 :: flat_map enc_float l
+  end.
+
+(* (part compared exactly, part compared with tolerance) *)
+Definition run2 (inp : list Z) : list Z * list Z :=
   match inp with
+  | 2 :: fd :: ns :: fs_m :: fs_e :: vps_m :: vps_e :: p_m :: p_e :: M :: s :: rest =>
+      let w := firstn (Z.to_nat M) rest in
+      let rest := skipn (Z.to_nat M) rest in
+      match rest with
+      | L :: rest =>
+          let text := firstn (Z.to_nat L) rest in
+          let rest := skipn (Z.to_nat L) rest in
+          match C09.Model.read_meta text with
+          | None => ([0], [])
+          | Some d =>
+              match range_volts_float d, ncv d with
+              | Some rv, Some n =>
+                  let mv := rv_take n rv in
+                  let data := chunk (Z.to_nat n) (Z.to_nat ns) (pairs rest) in
+                  match flags_reader fd fs_m fs_e vps_m vps_e p_m p_e mv data with
+                  | None => ([0], [])
+                  | Some fl => (1 :: enc_rv mv ++ Z.of_nat (length fl) :: map b2z fl, mute_fixed s fl w)
+                  end
+              | _, _ => ([0], [])
+              end
+          end
+      | [] => ([-999], [])
+      end
   | fd :: fm :: nc :: ns :: k :: fs_m :: fs_e :: vps_m :: vps_e :: p_m :: p_e :: M :: s :: rest =>
       let w := firstn (Z.to_nat M) rest in
       let rest := skipn (Z.to_nat M) rest in
@@ -48,11 +116,13 @@ Definition run (inp : list Z) : list Z :=
       let rest := skipn (2 * Z.to_nat k) rest in
       let data := chunk (Z.to_nat nc) (Z.to_nat ns) (pairs rest) in
       match flags_fmt fd fm fs_m fs_e vps_m vps_e p_m p_e mv data with
-      | None => [0]
-      | Some fl => 1 :: Z.of_nat (length fl) :: map b2z fl ++ mute_fixed s fl w
+      | None => ([0], [])
+      | Some fl => (1 :: Z.of_nat (length fl) :: map b2z fl, mute_fixed s fl w)
       end
-  | _ => [-999]
+  | _ => ([-999], [])
   end.
+
+Definition run (inp : list Z) : list Z := fst (run2 inp) ++ snd (run2 inp).
 
 (* comparison used by the kernel-evaluated sample: flags exactly, the mute
    (implementation: float64 rounded sums; model: exact) within 2^(s-36) ~ 1.5e-11 *)
@@ -64,10 +134,10 @@ Fixpoint close_eqb (tol : Z) (a b : list Z) : bool :=
   end.
 
 Definition agrees (inp out : list Z) : bool :=
-  let r := run inp in
-  let n := (2 + Z.to_nat (nth 3 inp 0%Z))%nat in
-  let s := nth 12 inp 0 in
-  zlist_eqb (firstn n r) (firstn n out) && close_eqb (2 ^ (s - 36)) (skipn n r) (skipn n out).
+  let r := run2 inp in
+  let n := length (fst r) in
+  let s := match inp with 2 :: _ => nth 10 inp 0 | _ => nth 12 inp 0 end in
+  zlist_eqb (fst r) (firstn n out) && close_eqb (2 ^ (s - 36)) (snd r) (skipn n out).
 
 Definition mismatches (cs : list (Z * list Z * list Z)) : list Z :=
   flat_map (fun c => let '(id, inp, out) := c in if agrees inp out then [] else [id]) cs.
